@@ -61,6 +61,7 @@ func runC05(r *Run) {
 	nP := t.Draw(3)
 	closer := t.Draw(len(c05Closers))
 	fireAfter := 1 + t.Draw(40)
+	r.DrawYields()
 	r.S.Stick = []int{0, 40, 80}[t.Draw(3)]
 	r.S.MaxSteps = 60000
 	r.S.MaxSim = 3 * time.Minute
